@@ -185,6 +185,20 @@ func c07PartialArgsPool() []c07Def {
 	}
 }
 
+// c07UnderscoreFieldsPool: records whose field names contain underscores and regroup to the same joined text
+// ({age_max; size} / {age; max_size}: both "age_max_size" when sorted names are joined with "_").  An unqualified
+// literal means the record with ITS field names, whether or not the other record exists (after seed C07k).
+func c07UnderscoreFieldsPool() []c07Def {
+	return []c07Def{
+		/*0*/ {name: "Aqf", src: "type Aqf = {age_max: int; size: int}\n", owns: exact("Aqf"), declOnly: true},
+		/*1*/ {name: "Bqf", src: "type Bqf = {age: int; max_size: int}\n", owns: exact("Bqf"), declOnly: true},
+		/*2*/ {name: "mkbqf", src: "let mkbqf () =\n  {age=1; max_size=2}\n", deps: []int{1}, owns: exact("mkbqf")},
+		/*3*/ {name: "mkaqf", src: "let mkaqf () =\n  {age_max=1; size=2}\n", deps: []int{0}, owns: exact("mkaqf")},
+		/*4*/ {name: "Cqf", src: "type Cqf = {a_b: int; c: int}\ntype Dqf = {a: int; b_c: int}\n", owns: exact("Cqf", "Dqf"), declOnly: true},
+		/*5*/ {name: "mkdqf", src: "let mkdqf () =\n  ({a=1; b_c=2}, {a_b=3; c=4})\n", deps: []int{4}, owns: exact("mkdqf")},
+	}
+}
+
 func c07Pool(thorough bool) []c07Def {
 	pool := []c07Def{
 		/*0*/ {name: "R", src: "type R = {A: int; B: string}\n", owns: exact("R"), declOnly: true},
@@ -476,6 +490,9 @@ func checkC07(c *core.Ctx) {
 	pab := []c07Def{pa[0], pa[6], pa[7], pa[3], pa[1]}
 	pab[1].deps, pab[2].deps, pab[3].deps = []int{0}, []int{0}, []int{0, 4}
 	c07ExplorePool(c, sc, fc, pab, [][2]int{{5, maxFiles}})
+	uf := c07UnderscoreFieldsPool()
+	c.Set("underscore_fields_pool_size", len(uf))
+	c07ExplorePool(c, sc, fc, uf, [][2]int{{5, maxFiles}})
 	inst := c07InstantiationPool()
 	c.Set("instantiation_pool_size", len(inst))
 	c07ExplorePool(c, sc, fc, inst, [][2]int{{5, maxFiles}})
